@@ -432,7 +432,11 @@ Fixpoint sem (n : nat) (g : G) (ctx : env) (p : nat) (a : reg) {struct n} : opti
       seq (run pd ctx p2 a2) (fun _ p3 e3 a3 => Some (Some (va, p3, (e1 ++ e2) ++ e3), a3))))
   | Group gs => group_sem run gs ctx p a [] []
   | Or x y => choice_sem run [x; y] ctx p a
-  | Choice gs => choice_sem run gs ctx p a
+  | Choice gs =>
+      match gs with
+      | [] => Some (None, fail_at a p [])
+      | _ => choice_sem run gs ctx p a
+      end
   | ChoiceVec gs =>
       match gs with
       | [] => Some (None, fail_at a p [])
